@@ -590,7 +590,7 @@ def boundary_valuations(rng, wm: "model.World", formulas_with_bindings, base: di
 
 
 def covering_states(rng, wm: "model.World", w: W, formulas_with_bindings, base_density=0.5,
-                    max_exhaustive_bits=7, n_random=10, n_valuations=3, n_boundary=0):
+                    max_exhaustive_bits=7, n_random=10, n_valuations=3, n_boundary=0, cross_cap=None):
     """states that exercise the given (formula, binding) instances:
     all 2^k assignments of the relevant atoms when k small, else random + single-atom flips;
     crossed with a few numeric valuations.  Irrelevant atoms are random but fixed per block."""
@@ -613,9 +613,14 @@ def covering_states(rng, wm: "model.World", w: W, formulas_with_bindings, base_d
         vals += boundary_valuations(rng, wm, formulas_with_bindings, vals[0], n_boundary)
     states = []
     if len(rel) <= max_exhaustive_bits:
-        for mask in range(1 << len(rel)):
+        n_masks = 1 << len(rel)
+        for mask in range(n_masks):
             a = frozenset(rel[i] for i in range(len(rel)) if mask >> i & 1) | base_other
-            for v in vals:
+            for vi, v in enumerate(vals):
+                # all atom assignments under the first valuation; under the other valuations a sample of them when there
+                # are many (the boolean structure is covered once, the numeric thresholds by the valuations)
+                if vi and cross_cap is not None and n_masks > cross_cap and rng.random() > cross_cap / n_masks:
+                    continue
                 states.append((a, dict(v)))
         exhaustive = True
     else:
